@@ -766,5 +766,8 @@ def companion_reserve_rule(chk, cid, prog, p, cfgname):
                                 'extra / %d is needed: the upper part of the grown usub[] lies above stack.top1 and is left behind by the next in-workspace move'
                                 % (pretty(a)[:40], pretty(r)[:20], VAL[p], VAL[p] // 4), cfgname=cfgname)
     if n < 2:
-        raise AnalysisBroken('%s: companion reservation for USUB not found' % f.name)
+        chk.violate(cid, '%s:room-for-the-subscripts-of-the-new-U-entries:absent' % f.name, loc(f, f.body), f.name,
+                    'when UCOL grows in the caller workspace no room is booked for the row subscripts that accompany the new U values (no `stack.top1 += ..; '
+                    'stack.used += ..` under `type == UCOL`): the grown usub[] lies above stack.top1 and is not moved by the next expansion', cfgname=cfgname)
+        return 1
     return n
